@@ -164,8 +164,39 @@ def gen_dotted_sibling_case(rng, root):
     return ch, desc
 
 
+def gen_empty_last_substep_case(rng, root):
+    """A delegated layout whose LAST step records no products (a test / scan / sign-off step) while an earlier one does:
+    the summary link carries the last step's products - none -, not those of the last step that has some."""
+    pool = W.pool()
+    ch = scen.gen_chain(rng, root, n_steps=rng.choice([1, 2]), n_insp=0, thresholds=(1,), max_funcs=1)
+    ch.closed = False
+    for s_ in ch.steps:
+        s_["rules"] = ([["ALLOW", "*"]], [["ALLOW", "*"]])
+    st = ch.steps[-1]
+    k1 = rng.choice([k for k in pool if k not in ch.owners])
+    ch.layout_keys[k1.keyid] = k1.pub
+    inner = scen.gen_chain(rng, root, n_steps=rng.choice([2, 3]), n_insp=0, thresholds=(1,), max_funcs=1, owners=[k1],
+                           prefix="in", fmt_mode="mixed")
+    inner.closed = False
+    for s_ in inner.steps:
+        s_["rules"] = ([["ALLOW", "*"]], [["ALLOW", "*"]])
+    inner.steps[0]["materials"] = st["materials"]
+    for ls in inner.steps[0]["links"]:
+        ls["materials"] = st["materials"]
+    inner.steps[-1]["products"] = {}
+    for ls in inner.steps[-1]["links"]:
+        ls["products"] = {}
+    st["products"] = {}
+    st["keys"], st["pubkeys"], st["threshold"] = [k1], [k1.keyid], 1
+    st["links"] = [scen.link_spec(k1, rng.choice(["metablock", "dsse"]), st["name"], st["materials"], {}, sub=inner)]
+    desc = {"depth": 1, "n_sublayouts": 1, "defect": None, "last_substep_without_products": True, "expected_accept": True}
+    return ch, desc
+
+
 def gen_case(rng, root, defect="draw"):
     r_ = rng.random() if defect == "draw" else 1.0
+    if defect == "empty_last_substep":
+        return gen_empty_last_substep_case(rng, root)
     if r_ < 0.1:
         return gen_dotted_sibling_case(rng, root)
     if r_ < 0.37:
@@ -268,7 +299,7 @@ def shard(seed, idx, n, tier):
     kinds = [d_ for d_ in dict.fromkeys(DEFECTS) if d_]
     for j in range(n):
         c_ = idx * n + j
-        one_case(rng, res, defect=kinds[(c_ // 3) % len(kinds)] if c_ % 3 == 0 else "draw")
+        one_case(rng, res, defect=(kinds + ["empty_last_substep"])[(c_ // 3) % (len(kinds) + 1)] if c_ % 3 == 0 else "draw")
     return res
 
 
